@@ -3,6 +3,7 @@ CONSTANTS
   Horizon = 12
   MaxDelay = 6
   ConnTimeout = 5
+  MaxConns = 2
 SPECIFICATION Spec
 INVARIANTS PingEveryInterval NoPingWhenDisabled SilentDetected NoFalseAlarm TimeoutOnTime
 CHECK_DEADLOCK FALSE
